@@ -520,7 +520,7 @@ def cli_bounded(sess: Session):
             lexs = [sound(i) if c == 's' else broken(i) for i, c in enumerate(pattern)]
             path = os.path.join(work, f'{pattern}.xml')
             lmf_.dump({'lmf_version': '1.0', 'lexicons': lexs}, path)
-            for select in ('E,W', 'E204', 'E'):
+            for select in ('E,W', 'E204', 'E', 'E101', 'W305', ' E204 , W305', 'E101,W'):
                 cases += 1
                 args = types.SimpleNamespace(FILE=path, select=select, output_file=None)
                 code = None
@@ -529,14 +529,22 @@ def cli_bounded(sess: Session):
                         main_mod._validate(args)
                     except SystemExit as exc:
                         code = exc.code
-                want = 1 if 'b' in pattern else 0
+                # --select is a comma-separated list of codes / categories (blanks around a member mean nothing);
+                # the exit status says whether validate() with that list reports an item for some lexicon
+                sel = [c.strip() for c in select.split(',')]
+                want = 1 if any(r['items'] for lx in lexs
+                                for r in V.validate(lx, select=sel, progress_handler=None).values()) else 0
+                if select in ('E,W', 'E204', 'E', ' E204 , W305'):
+                    assert want == (1 if 'b' in pattern else 0), (pattern, select, want)
+                elif select in ('E101', 'W305'):
+                    assert want == 0, (pattern, select, want)
                 if code != want:
                     bad.append({'lexicons (s=sound, b=broken)': pattern, 'select': select, 'exit status': code,
                                 'expected': want})
     finally:
         shutil.rmtree(work, ignore_errors=True)
-    sess.add_bounded('wn.__main__._validate (exit status)', '9 files with 1-3 lexicons (sound/broken in every order) x 3 '
-                     'selections', cases, 'native execution', not bad)
+    sess.add_bounded('wn.__main__._validate (exit status)', '9 files with 1-3 lexicons (sound/broken in every order) x 7 '
+                     'selections (categories, single codes with and without findings, lists with blanks)', cases, 'native execution', not bad)
     if bad:
         sess.violation_direct('wn.__main__._validate:exit-status', 'exit status does not say whether some lexicon has '
                               'reported items', {'witness': bad[:3]}, True, functions=('wn.__main__._validate',))
